@@ -285,7 +285,7 @@ def run_all(per_function=40, names=None):
         c = dsl.RunCtx(resolver=policy.resolve)
         K = dsl.CONTRACTS[q]
         inputs = [a for (_q, a) in inputs]
-        rng.shuffle(inputs)
+        random.Random(f"selftest:{q}").shuffle(inputs)  # per function: adding a contract does not move the others' samples
         res = {"agree": 0, "disagree": 0, "unsupported": 0}
         note = ""
         for a in inputs[:per_function]:
